@@ -20,6 +20,14 @@ that only import, packages with an empty ``__init__``) and are then the only pub
 edited object.
 Attributes are bound several times (class level, ``__init__``, module level; conditionally or not);
 the model records the value of the binding that wins the documented tie-break.
+Definitions (functions, classes, attributes, class members, the re-exporting imports) may sit inside compound
+statements that CPython runs exactly once at import time - ``if/elif/else`` (``sys.version_info``, ``TYPE_CHECKING``
+else-branches), ``try/except/else/finally``, ``except*``, ``with`` (also parenthesised), ``for/while ... else``,
+``match/case`` (literal, class, guard, sequence, mapping, wildcard patterns), nested two deep, alone or with their
+neighbours, or written once per branch of a platform switch - in public modules, private re-exported modules and class
+bodies; every version is imported by CPython and the structural model (kinds, values, bases, members, effective
+``__all__``) is compared with what CPython built; the edits hit those objects like any other, and a sample of the pairs is
+also compared in its plain spelling (same definitions at the top level): the reports must be the same.
 Oracle: a *public-surface model* computed from the generator's structure (never from
 ``is_public``) and the packages the session loads gives the public paths of every object;
 incompatible edits on an object with >= 1 public path must yield a breakage of the expected kind on
@@ -32,8 +40,11 @@ from __future__ import annotations
 import copy
 import os
 import random
+import re
 import subprocess
 import sys
+import textwrap
+import types
 
 from vf.core.util import case_watchdog, tmp_tree
 
@@ -61,7 +72,13 @@ RULE = ("structured package pk (modules pk, pk.core, pk._impl, pk.sub, pk.sub.mo
         "annotation, annotated or not, under if / else / elif / if-else / try / except / try-except / try-else / finally / for / while / "
         "with and nestings, with literals or the __init__ parameter; `change_value` edits the binding Griffe documents to keep "
         "(later wins, but a re-assignment directly inside an if/else branch or an except handler does not displace a value), "
-        "`change_losing_binding` (compatible) edits one that loses; optional "
+        "`change_losing_binding` (compatible) edits one that loses; definitions, class members and re-exporting imports (each with "
+        "probability 0.45 / 0.3 in 70 % of the packages, alone or as a run of 2-3 neighbours in one block) placed inside 1-2 nested "
+        "compound statements whose body runs exactly once at import time, drawn from 40 spellings of if / elif / else (conditions on "
+        "__debug__, sys.version_info, sys.platform, TYPE_CHECKING), try / except / else / finally, except*, with (as, multi-item, "
+        "parenthesised), for / while (+ else), match / case (literal, or-pattern, class, guard, sequence, mapping, wildcard) and the "
+        "spellings that write the definition once per branch (if-else, if-elif-else, try-except ImportError, match over "
+        "sys.platform); objects added by an edit may sit in such statements too; optional "
         "dangling or cyclic re-export injected in both versions x loading session applied to both versions: the way `griffe check` "
         "loads (load pk, resolve aliases with external=None, which pulls in _pk afterwards when an exported alias or a wildcard leads "
         "there) or a loader session over a drawn subset/order of the packages with consumer reads of the whole tree and alias "
@@ -74,7 +91,10 @@ LEVEL_TEXT = ("Both versions are loaded statically by the same session (as `grif
               "(a difference only Python sees, inside a package the session did not load, is neither demanded nor forbidden); identical "
               "copies and compatible-only scripts must be silent; every breakage must explain() in all styles; the CLI exit code is "
               "compared with the reference model and with the in-process result on a sample, two thirds of it with a private sibling "
-              "package that the CLI has to pull in by itself.")
+              "package that the CLI has to pull in by itself. Every generated version is imported by CPython (from memory, through the "
+              "import system) and the structural model is compared with the namespace CPython built, so that a definition inside a "
+              "compound statement is known to exist at run time; a sample of the pairs is diffed a second time in its plain spelling "
+              "and both spellings must produce the same (kind, path) reports.")
 LEVEL_NOTE = ("trusted: the public-surface model (written from the documented rules: underscore names, __all__, imported "
               "names are private unless exported, modules only by underscore; only paths below pk are public paths of the compared "
               "package) and the loading rule (external=None loads `_pk` for pk, nothing else); a breakage located at the canonical "
@@ -96,7 +116,16 @@ REQUIRED_COUNTERS = ["pairs_diffed", "identical_pairs_silent", "compatible_scrip
                      "value_edits_on_instance_attribute_with_conditional_rebinding_reported",
                      "such_edits_with_documented_value_bound_at_class_level", "such_edits_with_documented_value_bound_in_init",
                      "value_edits_on_module_attribute_with_conditional_rebinding_reported", "pairs_with_losing_binding_edit_silent",
-                     "cli_cases_with_conditionally_rebound_attribute"]
+                     "cli_cases_with_conditionally_rebound_attribute",
+                     "versions_with_compound_statements_confirmed_by_cpython_import",
+                     "edits_on_objects_defined_in_compound_statement_reported", "edits_on_objects_defined_in_match_case_reported",
+                     "edits_on_objects_defined_in_try_statement_reported", "edits_on_objects_defined_in_with_statement_reported",
+                     "edits_on_objects_defined_in_loop_reported", "edits_on_objects_defined_in_if_statement_reported",
+                     "edits_on_objects_defined_two_statements_deep_reported", "edits_on_class_members_defined_in_compound_statement_reported",
+                     "edits_behind_reexport_or_inheritance_on_objects_defined_in_compound_statement_reported",
+                     "edits_behind_reexport_spelled_in_compound_statement_reported",
+                     "silent_pairs_with_definitions_in_compound_statements", "pairs_compared_with_their_plain_spelling",
+                     "non_empty_reports_equal_in_both_spellings", "cli_cases_with_edit_on_object_defined_in_match_case"]
 EXHAUSTIVE = {"quick": False, "thorough": False}
 ASSUMPTIONS = ["attribute values and parameter lists are simple literals / names so that C03/C10 findings cannot surface here",
                "the value documented for an attribute bound several times follows the tie-break of C01's statement (later wins, a "
@@ -111,7 +140,12 @@ ASSUMPTIONS = ["attribute values and parameter lists are simple literals / names
                "list(x)); composing from the sibling package's __all__ is not generated (see report: dropped when the sibling is loaded later)",
                "pairs in which the edit changes which packages the session loads (the last exported name leading into _pk is removed) "
                "are not judged",
-               "no package is loaded twice in a session (reloading is C18's subject)"]
+               "no package is loaded twice in a session (reloading is C18's subject)",
+               "a compound statement around a definition runs its body exactly once at import time (checked by importing every version "
+               "with CPython) or, in the once-per-branch spellings, every branch holds the same definition; definitions in branches "
+               "that never run, or that differ between branches, are not generated (what is documented then is C01's subject); an "
+               "attribute bound several times sits only in blocks whose statements are not directly in an if-branch / except handler "
+               "(the tie-break would read them as conditional)"]
 SHARD_TIMEOUT = {"quick": 900, "thorough": 7200}
 
 
@@ -128,8 +162,9 @@ def new_obj(name, kind, **kw):  # noqa: ANN001, ANN003, ANN201
 # tie-break (C01's statement): later bindings win, except that a re-assignment whose statement sits directly in an if / elif /
 # else branch or in an except handler does not displace a value the name already has. A bare annotation binds the name
 # without a value and keeps a value it already has.
-COND_CTX = {"if", "else", "elif", "except", "for_if"}  # the assignment's direct parent is an If / ExceptHandler
-WIN_CTX = {"plain", "try", "tryelse", "finally", "for", "while", "with", "if_with"}  # direct parent: body, Try, For, While, With
+COND_CTX = {"if", "else", "elif", "except", "for_if", "exceptstar"}  # the assignment's direct parent is an If / ExceptHandler (also of `except*`)
+# direct parent: body, Try, TryStar, For, While, With, match_case
+WIN_CTX = {"plain", "try", "tryelse", "finally", "for", "while", "with", "if_with", "match", "match_wild", "trystar", "forelse", "whileelse"}
 TWO_CTX = {"ifelse": (True, True), "tryexcept": (False, True)}  # two assignments: (first is conditional, second is conditional)
 UNSET = "<unset>"
 
@@ -202,12 +237,173 @@ def render_binding(b: dict, target: str, indent: str, cond: str) -> str:
         "with": f"{indent}with memoryview(b''):\n{i1}{a1}",
         "if_with": f"{indent}if {cond}:\n{i1}with memoryview(b''):\n{i2}{a1}",
         "for_if": f"{indent}for _ in (0,):\n{i1}if {cond}:\n{i2}{a1}",
+        "match": f"{indent}match 1:\n{i1}case 1:\n{i2}{a1}{i1}case _:\n{i2}pass\n",
+        "match_wild": f"{indent}match 0:\n{i1}case str():\n{i2}pass\n{i1}case _:\n{i2}{a1}",
+        "trystar": f"{indent}try:\n{i1}{a1}{indent}except* Exception:\n{i1}pass\n",
+        "exceptstar": f"{indent}try:\n{i1}raise ExceptionGroup('g', [ValueError(0)])\n{indent}except* ValueError:\n{i1}{a1}",
+        "forelse": f"{indent}for _ in ():\n{i1}pass\n{indent}else:\n{i1}{a1}",
+        "whileelse": f"{indent}while False:\n{i1}pass\n{indent}else:\n{i1}{a1}",
     }
     return shapes[ctx]
 
 
 def top_of(mod: str) -> str:
     return mod.split(".", 1)[0]
+
+
+# -- compound statements around definitions --------------------------------------------------------
+# Every definition (function, class, attribute, class member, re-exporting import) may sit inside compound statements that
+# CPython executes at import time so that the wrapped statements run exactly once: the object exists, with the same kind /
+# value / signature, exactly as if it were defined at the top level of the module / class body. "dup" spellings write the
+# definition in every branch (a platform switch: only one branch runs, all of them define the same thing).
+TRUE_CONDS = ["__debug__", "sys.version_info >= (3, 8)", "not TYPE_CHECKING", "sys.version_info[0] == 3", "not typing.TYPE_CHECKING",
+              "True", "sys.platform != 'no-such-os'"]
+FALSE_CONDS = ["not __debug__", "sys.version_info < (3, 8)", "TYPE_CHECKING", "typing.TYPE_CHECKING", "sys.platform == 'no-such-os'", "False"]
+_MV = 'memoryview(b"")'
+WRAPS = {
+    # if / elif / else
+    "if": lambda c: f"{c.i}if {c.t}:\n{c.B}",
+    "if_else_pass": lambda c: f"{c.i}if {c.t}:\n{c.B}{c.i}else:\n{c.i1}pass\n",
+    "else": lambda c: f"{c.i}if {c.f}:\n{c.i1}pass\n{c.i}else:\n{c.B}",
+    "elif": lambda c: f"{c.i}if {c.f}:\n{c.i1}pass\n{c.i}elif {c.t}:\n{c.B}",
+    "elif_else": lambda c: f"{c.i}if {c.f}:\n{c.i1}pass\n{c.i}elif not {c.t}:\n{c.i1}pass\n{c.i}else:\n{c.B}",
+    "ifelse_dup": lambda c: f"{c.i}if {c.any}:\n{c.B}{c.i}else:\n{c.B}",
+    "elif_dup": lambda c: f"{c.i}if {c.f}:\n{c.B}{c.i}elif {c.t}:\n{c.B}{c.i}else:\n{c.B}",
+    # try / except / else / finally, except*
+    "try": lambda c: f"{c.i}try:\n{c.B}{c.i}except Exception:\n{c.i1}pass\n",
+    "try_as": lambda c: f"{c.i}try:\n{c.B}{c.i}except (ImportError, AttributeError) as {c.v}:\n{c.i1}pass\n",
+    "try_finally": lambda c: f"{c.i}try:\n{c.B}{c.i}finally:\n{c.i1}pass\n",
+    "except": lambda c: f"{c.i}try:\n{c.i1}raise ValueError\n{c.i}except ValueError:\n{c.B}",
+    "except_as": lambda c: f"{c.i}try:\n{c.i1}raise KeyError(0)\n{c.i}except (TypeError, KeyError) as {c.v}:\n{c.B}",
+    "except_second": lambda c: f"{c.i}try:\n{c.i1}raise KeyError(0)\n{c.i}except ValueError:\n{c.i1}pass\n{c.i}except KeyError:\n{c.B}",
+    "except_bare": lambda c: f"{c.i}try:\n{c.i1}raise ValueError\n{c.i}except:\n{c.B}",
+    "tryexcept_dup": lambda c: f"{c.i}try:\n{c.B}{c.i}except ImportError:\n{c.B}",
+    "tryelse": lambda c: f"{c.i}try:\n{c.i1}pass\n{c.i}except Exception:\n{c.i1}pass\n{c.i}else:\n{c.B}",
+    "finally": lambda c: f"{c.i}try:\n{c.i1}pass\n{c.i}finally:\n{c.B}",
+    "except_finally": lambda c: f"{c.i}try:\n{c.i1}pass\n{c.i}except Exception:\n{c.i1}raise\n{c.i}else:\n{c.i1}pass\n{c.i}finally:\n{c.B}",
+    "trystar": lambda c: f"{c.i}try:\n{c.B}{c.i}except* ValueError:\n{c.i1}pass\n",
+    "exceptstar": lambda c: f"{c.i}try:\n{c.i1}raise ExceptionGroup('g', [ValueError(0)])\n{c.i}except* ValueError:\n{c.B}",
+    "exceptstar_as": lambda c: f"{c.i}try:\n{c.i1}raise ExceptionGroup('g', [KeyError(0)])\n{c.i}except* TypeError:\n{c.i1}pass\n{c.i}except* (KeyError, OSError) as {c.v}:\n{c.B}",
+    "trystar_else": lambda c: f"{c.i}try:\n{c.i1}pass\n{c.i}except* OSError:\n{c.i1}pass\n{c.i}else:\n{c.B}",
+    "trystar_finally": lambda c: f"{c.i}try:\n{c.i1}pass\n{c.i}except* OSError:\n{c.i1}pass\n{c.i}finally:\n{c.B}",
+    # with
+    "with": lambda c: f"{c.i}with {_MV}:\n{c.B}",
+    "with_as": lambda c: f"{c.i}with {_MV} as {c.v}:\n{c.B}",
+    "with_multi": lambda c: f"{c.i}with {_MV} as {c.v}, {_MV}:\n{c.B}",
+    "with_paren": lambda c: f"{c.i}with (\n{c.i1}{_MV} as {c.v},\n{c.i1}{_MV} as {c.v}b,\n{c.i}):\n{c.B}",
+    # loops
+    "for": lambda c: f"{c.i}for {c.v} in (0,):\n{c.B}",
+    "for_pass_else": lambda c: f"{c.i}for {c.v} in (0,):\n{c.B}{c.i}else:\n{c.i1}pass\n",
+    "forelse": lambda c: f"{c.i}for {c.v} in ():\n{c.i1}pass\n{c.i}else:\n{c.B}",
+    "while": lambda c: f"{c.i}while True:\n{c.B}{c.i1}break\n",
+    "whileelse": lambda c: f"{c.i}while False:\n{c.i1}pass\n{c.i}else:\n{c.B}",
+    # match / case
+    "match_lit": lambda c: f"{c.i}match 1:\n{c.i1}case 0:\n{c.i2}pass\n{c.i1}case 1:\n{c.BB}",
+    "match_first": lambda c: f"{c.i}match 'a':\n{c.i1}case 'a' | 'b':\n{c.BB}{c.i1}case _:\n{c.i2}pass\n",
+    "match_class": lambda c: f"{c.i}match 1:\n{c.i1}case str():\n{c.i2}pass\n{c.i1}case int():\n{c.BB}",
+    "match_guard": lambda c: f"{c.i}match 1:\n{c.i1}case {c.v} if {c.v} > 5:\n{c.i2}pass\n{c.i1}case {c.v} if {c.v} == 1 and {c.t}:\n{c.BB}",
+    "match_wild": lambda c: f"{c.i}match 0:\n{c.i1}case 1:\n{c.i2}pass\n{c.i1}case _:\n{c.BB}",
+    "match_seq": lambda c: f"{c.i}match (1, 2):\n{c.i1}case [{c.v}]:\n{c.i2}pass\n{c.i1}case [{c.v}, *{c.v}r]:\n{c.BB}",
+    "match_map": lambda c: f"{c.i}match {{'k': 1}}:\n{c.i1}case {{'k': 2}}:\n{c.i2}pass\n{c.i1}case {{'k': {c.v}}}:\n{c.BB}",
+    "match_dup": lambda c: f"{c.i}match sys.platform:\n{c.i1}case 'win32' | 'cygwin':\n{c.BB}{c.i1}case 'darwin' if {c.t}:\n{c.BB}{c.i1}case _:\n{c.BB}",
+}
+DUP_WRAPS = {"ifelse_dup", "elif_dup", "tryexcept_dup", "match_dup"}
+# the statements of the body sit directly in an `if` branch or an except handler: what C01's tie-break calls conditional
+COND_WRAPS = {"if", "if_else_pass", "else", "elif", "elif_else", "ifelse_dup", "elif_dup", "except", "except_as", "except_second", "except_bare",
+              "tryexcept_dup", "exceptstar", "exceptstar_as"}
+NEUTRAL_WRAPS = sorted(set(WRAPS) - COND_WRAPS - DUP_WRAPS)
+
+
+def wrap_family(kind: str) -> str:
+    if kind.startswith("match"):
+        return "match_case"
+    if kind.startswith(("try", "except", "finally")):
+        return "try_statement"
+    if kind.startswith("with"):
+        return "with_statement"
+    if kind.startswith(("for", "while")):
+        return "loop"
+    return "if_statement"
+
+
+def gen_wrap(rng: random.Random, neutral_inner: bool = False, dup: bool = True) -> list[dict]:
+    """1-2 nested compound statements, innermost first. ``neutral_inner``: the innermost one does not make its body conditional
+    in the sense of the tie-break for attributes bound several times; ``dup`` False: no spelling that writes the body twice."""
+    out = []
+    for depth in range(rng.choice([1, 1, 1, 2, 2])):
+        fam = rng.choice(["match_case", "match_case", "try_statement", "try_statement", "with_statement", "loop", "if_statement", "if_statement"])
+        pool = [k for k in (NEUTRAL_WRAPS if neutral_inner and depth == 0 else sorted(WRAPS)) if wrap_family(k) == fam and (dup or k not in DUP_WRAPS)]
+        if not pool:
+            pool = [k for k in NEUTRAL_WRAPS if wrap_family(k) in ("match_case", "with_statement", "loop")]
+        out.append({"w": rng.choice(pool), "t": rng.choice(TRUE_CONDS), "f": rng.choice(FALSE_CONDS)})
+    return out
+
+
+def wrap_text(w: dict, body: str, ind: str, depth: int) -> str:
+    c = types.SimpleNamespace(i=ind, i1=ind + "    ", i2=ind + "        ", t=w["t"], f=w["f"], v=f"_w{depth}",
+                              B=textwrap.indent(body, "    "), BB=textwrap.indent(body, "        "))
+    c.any = w["t"] if len(w["t"]) % 2 else w["f"]  # (a platform switch: whichever branch runs defines the same)
+    return WRAPS[w["w"]](c)
+
+
+def apply_wraps(wraps: list[dict] | None, body: str, ind: str) -> str:
+    if wraps and body.strip():
+        for depth, w in enumerate(wraps):
+            body = wrap_text(w, body, ind, depth)
+    return body
+
+
+def wrap_constraints(group: list[dict]) -> tuple[bool, bool]:
+    """(innermost statement must be neutral, duplicating spellings allowed) for a run of objects sharing one block: attributes
+    bound several times keep the meaning of their bindings only in a neutral block, written once; the __init__ that carries
+    instance attributes is written once."""
+    multi = any(o.get("binds") is not None for o in group)
+    carrier = any(o["kind"] == "func" and o["name"] == "__init__" for o in group)
+    return multi, not (multi or carrier)
+
+
+def assign_wraps(rng: random.Random, model: dict) -> None:
+    """Put definitions, class members and re-exporting imports into compound statements; runs of 2-3 neighbours may share one."""
+    gid = [0]
+
+    def over(objs: list[dict]) -> None:
+        i = 0
+        while i < len(objs):
+            n = rng.choice([1, 1, 1, 2, 3])
+            group = objs[i:i + n]
+            if rng.random() < 0.45:
+                neutral, dup = wrap_constraints(group)
+                wraps = gen_wrap(rng, neutral, dup)
+                gid[0] += 1
+                for o in group:
+                    o["wrap"] = copy.deepcopy(wraps)
+                    o["grp"] = gid[0]
+            for o in group:
+                if o["kind"] == "class":
+                    over(o["members"])
+            i += n
+
+    for m in model["mods"].values():
+        over(m["objs"])
+        for frm, name, asname in m["imports"]:
+            if rng.random() < 0.3:
+                m.setdefault("iwrap", {})[asname or name] = gen_wrap(rng)
+
+
+def wraps_of(model: dict) -> tuple[dict[str, list[str]], dict[str, list[str]]]:
+    """(canonical path of an object -> spellings of the compound statements its definition sits in, own and the enclosing
+    class's, innermost first; module.localname of an import -> spellings of the statements around the import)."""
+    objs, imps = {}, {}
+    for mod, cls, o in all_objects(model):
+        ws = [w["w"] for w in o.get("wrap") or ()] + [w["w"] for w in (cls.get("wrap") if cls else None) or ()]
+        if ws:
+            objs[canon(mod, cls, o)] = ws
+    for mod, m in model["mods"].items():
+        live = {i[2] or i[1] for i in m["imports"]}
+        for local, ws in (m.get("iwrap") or {}).items():
+            if local in live:
+                imps[f"{mod}.{local}"] = [w["w"] for w in ws]
+    return objs, imps
 
 
 ALL_FORMS = ["star", "plus", "plus_rev", "aug", "tuple", "ann"]  # how the module writes its composed __all__
@@ -240,8 +436,9 @@ def import_reaches(mods: dict, start: str, goal: str) -> bool:
 
 
 def gen_model(rng: random.Random, siblings: bool | None = None, compose: bool | None = None, shapes: bool | None = None,  # noqa: C901, PLR0912, PLR0915
-              attrs: bool | None = None) -> dict:
-    """``siblings``: None = drawn, True = the private sibling top-level package is present and linked by an exported
+              attrs: bool | None = None, wraps: bool | None = None) -> dict:
+    """``wraps``: None = drawn, True = definitions, class members and re-exporting imports sit inside compound statements that
+    run exactly once at import time (if / try / except* / with / loops / match, nested up to two deep). ``siblings``: None = drawn, True = the private sibling top-level package is present and linked by an exported
     re-export, False = single-package model. ``compose``: None = drawn, True = some modules build their ``__all__`` from
     other modules' ``__all__``. ``shapes``: None = drawn, True = boundary shapes of containers occur: classes with an empty
     body (``pass``, ``...``, docstring only) or with private members only that offer what they inherit, a module that only
@@ -271,7 +468,8 @@ def gen_model(rng: random.Random, siblings: bool | None = None, compose: bool | 
                 ctx = rng.choice(["plain"] * 6 + ["bare", "if", "try", "ifelse"])
             else:
                 ctx = rng.choice(["if", "if", "else", "elif", "except", "except", "ifelse", "tryexcept", "for_if",
-                                  "plain", "try", "tryelse", "finally", "for", "while", "with", "if_with", "bare", "bare"])
+                                  "plain", "try", "tryelse", "finally", "for", "while", "with", "if_with", "bare", "bare",
+                                  "match", "match_wild", "trystar", "exceptstar", "forelse", "whileelse"])
             if ctx == "bare" and (site == "init" or (k == 0 and not in_class)):
                 ctx = "plain"  # (a module-level name that is only declared cannot be imported by the other modules)
             b = {"site": site, "ctx": ctx, "ann": ctx != "bare" and rng.random() < 0.25}
@@ -512,10 +710,14 @@ def gen_model(rng: random.Random, siblings: bool | None = None, compose: bool | 
         # the root __init__ is empty: every public route starts at a submodule
         mods["pk"] = {"objs": [], "imports": [], "all": None}
         extra = None
-    return {"mods": mods, "extra": extra}
+    model = {"mods": mods, "extra": extra, "wraps": (rng.random() < 0.7) if wraps is None else wraps}
+    if model["wraps"]:
+        assign_wraps(rng, model)
+    return model
 
 
-def render_obj(o: dict, indent: str = "", cls: dict | None = None) -> str:
+def render_obj(o: dict, indent: str = "", cls: dict | None = None, plain: bool = False) -> str:
+    """The definition itself, without the compound statements it may sit in (see render_objs)."""
     if o["kind"] == "func":
         ps = ", ".join(n if d is None else f"{n}={d}" for n, d in o["params"])
         body = ""
@@ -532,8 +734,24 @@ def render_obj(o: dict, indent: str = "", cls: dict | None = None) -> str:
         return "".join(render_binding(b, o["name"], indent, "__debug__") for b in o["binds"] if b["site"] == "body")
     head = f"{indent}class {o['name']}" + (f"({', '.join(o['bases'])})" if o["bases"] else "") + ":\n"
     empty = {"pass": "pass", "ellipsis": "...", "doc": '"""Everything is inherited."""'}[o.get("body") or "pass"]
-    body = "".join(render_obj(m, indent + "    ", o) for m in o["members"]) or f"{indent}    {empty}\n"
+    body = render_objs(o["members"], indent + "    ", o, plain) or f"{indent}    {empty}\n"
     return head + body
+
+
+def render_objs(objs: list[dict], indent: str = "", cls: dict | None = None, plain: bool = False) -> str:
+    """The definitions in order; a definition with a ``wrap`` sits inside those compound statements, together with the
+    neighbours that follow it and belong to the same group. ``plain``: the same definitions, none of the statements."""
+    out, i = "", 0
+    while i < len(objs):
+        o, j = objs[i], i + 1
+        wraps = None if plain else o.get("wrap")
+        if wraps and o.get("grp") is not None:
+            while j < len(objs) and objs[j].get("grp") == o["grp"] and objs[j].get("wrap") == wraps:
+                j += 1
+        body = "".join(render_obj(x, indent, cls, plain) for x in objs[i:j])
+        out += apply_wraps(wraps, body, indent)
+        i = j
+    return out
 
 
 def all_term(mod: str, c: dict, k: int, pkgs: set[str]) -> tuple[str, str]:
@@ -575,7 +793,8 @@ def render_all(lits: list[str], terms: list[str], form: str | None) -> str:
     return f"__all__ = {lits!r}\n" + "".join(f"__all__ += {t}\n" for t in terms)  # aug
 
 
-def render(model: dict) -> dict[str, str]:
+def render(model: dict, plain: bool = False) -> dict[str, str]:
+    """``plain``: the same package with every definition and import at the top level of its module / class body."""
     files = {}
     pkgs = {"pk", "pk.sub"} | {top_of(m) for m in model["mods"]} | {m for m in model["mods"] if any(x.startswith(m + ".") for x in model["mods"])}
     for mod, m in model["mods"].items():
@@ -584,8 +803,9 @@ def render(model: dict) -> dict[str, str]:
         hops = sorted({c["src"] for m2 in model["mods"].values() for c in m2.get("compose", []) if c.get("hop") == mod})
         src = "".join(f"from {h.rpartition('.')[0]} import {h.rpartition('.')[2]} as _hop_{h.rpartition('.')[2]}\n" for h in hops)
         src += "".join(f"from {w} import *\n" for w in m.get("wild", []))
+        iwrap = {} if plain else (m.get("iwrap") or {})
         for frm, name, asname in m["imports"]:
-            src += f"from {frm} import {name}" + (f" as {asname}" if asname else "") + "\n"
+            src += apply_wraps(iwrap.get(asname or name), f"from {frm} import {name}" + (f" as {asname}" if asname else "") + "\n", "")
         if mod == "pk" and model.get("extra") == "dangling":
             src += "from pk.nowhere import ghost\n"
         if mod == "pk" and model.get("extra") == "cyclic":
@@ -597,12 +817,15 @@ def render(model: dict) -> dict[str, str]:
             line, term = all_term(mod, c, k, pkgs)
             src += line
             terms.append(term)
-        for o in m["objs"]:
-            src += render_obj(o)
+        src += render_objs(m["objs"], "", None, plain)
         if m["all"] is not None:
             src += render_all(m["all"], terms, m.get("form"))
+        # what the conditions of the compound statements refer to (first statements of the module)
+        pre = "import sys\n" if "sys." in src else ""
+        pre += "import typing\n" if "typing.TYPE_CHECKING" in src else ""
+        pre += "from typing import TYPE_CHECKING\n" if re.search(r"(?<![.\w])TYPE_CHECKING", src) else ""
         rel = mod.replace(".", "/") + ("/__init__.py" if mod in pkgs else ".py")
-        files[rel] = src or "\n"
+        files[rel] = (pre + src) or "\n"
     return files
 
 
@@ -987,6 +1210,12 @@ def prefer_hidden(rng: random.Random, cands: list, surface: dict, focus=None):  
     composed ``__all__`` makes public), take one of those."""
     if focus == "attrs":
         focus = None
+    if focus == "wraps":
+        # public objects whose definition (or whose class's definition) sits inside a compound statement
+        wrapped = [c for c in cands if (c[2].get("wrap") or (c[1] and c[1].get("wrap"))) and surface.get(canon(*c))]
+        if wrapped:
+            return rng.choice(wrapped)
+        focus = None
     if focus and focus != "sibling":
         def only_there(c):  # noqa: ANN001, ANN202
             paths = surface.get(canon(*c))
@@ -1019,7 +1248,10 @@ def apply_edit(rng: random.Random, old: dict, new: dict, kind: str, surface: dic
     if kind == "add_object":
         mod = rng.choice(list(new["mods"]))
         name = f"added{rng.randint(100, 999)}"
-        new["mods"][mod]["objs"].append(new_obj(name, rng.choice(["func", "attr", "class"])))
+        added = new_obj(name, rng.choice(["func", "attr", "class"]))
+        if new.get("wraps") and rng.random() < 0.4:
+            added["wrap"] = gen_wrap(rng)
+        new["mods"][mod]["objs"].append(added)
         # an *empty* __all__ declares nothing (names decide): giving it a first entry would un-publish every other
         # object of the module, which is no compatible edit - only a non-empty __all__ is extended
         # (nor is a name added to an __all__ that another module composes its own from while importing the objects one by one)
@@ -1149,6 +1381,8 @@ def apply_edit(rng: random.Random, old: dict, new: dict, kind: str, surface: dic
         if not cands:
             return None
         pick = [c for c in cands if c[1] == "bulk" and any(x["src"] == c[2] for x in new["mods"][c[0]].get("compose", []))]
+        if focus == "wraps":
+            pick = [c for c in cands if c[1] == "import" and (c[2][2] or c[2][1]) in (new["mods"][c[0]].get("iwrap") or {})]
         mod, how, what = rng.choice(pick) if pick and focus and focus != "sibling" else rng.choice(cands)
         mm = new["mods"][mod]
         before = {i[2] or i[1] for i in imports_of(new, mod)}
@@ -1229,6 +1463,119 @@ def fix_class_order(model: dict) -> None:
                             break
                 if changed:
                     break
+
+
+# -- CPython as witness of the generated packages ------------------------------------------------------
+def cpython_view(files: dict[str, str]) -> dict | str:
+    """Import every module of the generated packages with CPython (in this process; the modules are removed from
+    sys.modules afterwards) and describe what exists: module -> {"all": __all__ or None, "objs": {name: [kind, value /
+    number of bases, {member: [kind, value]}]}} for what the module's namespace holds. A string: the import failed."""
+    import importlib
+    import importlib.abc
+    import importlib.util
+
+    table = {rel[:-3].replace("/", ".").removesuffix(".__init__"): (src, rel.endswith("/__init__.py")) for rel, src in files.items()}
+    mods = sorted(table)
+    tops = {top_of(m) for m in mods}
+
+    class FromMemory(importlib.abc.MetaPathFinder, importlib.abc.Loader):
+        """The import system reads the generated sources from memory instead of a scratch directory."""
+
+        def find_spec(self, name, path=None, target=None):  # noqa: ANN001, ANN202, ARG002
+            if name in table:
+                return importlib.util.spec_from_loader(name, self, is_package=table[name][1])
+            return None
+
+        def create_module(self, spec):  # noqa: ANN001, ANN202, ARG002
+            return None
+
+        def exec_module(self, module):  # noqa: ANN001, ANN202
+            exec(compile(table[module.__name__][0], f"<generated {module.__name__}>", "exec"), module.__dict__)  # noqa: S102
+
+    def describe(v, holder: str | None):  # noqa: ANN001, ANN202
+        if isinstance(v, type):
+            return ["class", len(v.__bases__), {k: describe(x, None) for k, x in vars(v).items() if not (k.startswith("__") and k != "__init__")},
+                    v.__module__]
+        if isinstance(v, types.FunctionType):
+            return ["func", None, None, v.__module__]
+        if isinstance(v, types.ModuleType):
+            return ["module", None, None, v.__name__]
+        return ["attr", repr(v), None, holder]
+
+    finder = FromMemory()
+    sys.meta_path.insert(0, finder)
+    try:
+        out = {}
+        for mod in mods:
+            module = importlib.import_module(mod)
+            out[mod] = {"all": None if getattr(module, "__all__", None) is None else list(module.__all__),
+                        "objs": {k: describe(v, mod) for k, v in vars(module).items() if not (k.startswith("__") and k.endswith("__"))}}
+        return out
+    except Exception as exc:  # noqa: BLE001
+        return f"{type(exc).__name__}: {exc}"
+    finally:
+        sys.meta_path.remove(finder)
+        for name in [n for n in sys.modules if top_of(n) in tops]:
+            del sys.modules[name]
+
+
+def model_vs_cpython(model: dict, view: dict) -> str | None:
+    """What the structural model says exists (definitions with kind, value of attributes bound once, number of bases, own
+    members; the effective __all__) against what CPython built; also: CPython defined no function / class in a module that
+    the model does not know. None: they agree."""
+    for mod, m in model["mods"].items():
+        got = view.get(mod)
+        if got is None:
+            return f"module {mod} not imported"
+        ea = eff_all(model, mod)
+        if (ea is None) != (got["all"] is None) or (ea is not None and set(ea) - {"ghost", "loop_a"} != set(got["all"]) - {"ghost", "loop_a"}):
+            return f"{mod}.__all__ is {got['all']} for CPython, the model computes {ea}"
+        for o in m["objs"]:
+            d = got["objs"].get(o["name"])
+            if o["kind"] == "attr" and o.get("binds") is not None:
+                continue  # (what is documented for a name bound several times is C01's tie-break, not the run-time value)
+            if d is None or d[0] != o["kind"]:
+                return f"{mod}.{o['name']} is {d and d[0]} for CPython, the model says {o['kind']}"
+            if o["kind"] == "attr" and d[1] != o["value"]:
+                return f"{mod}.{o['name']} = {d[1]} for CPython, the model says {o['value']}"
+            if o["kind"] == "class":
+                if d[1] != max(1, len(o["bases"])):
+                    return f"{mod}.{o['name']} has {d[1]} bases for CPython, the model says {o['bases']}"
+                for mem in o["members"]:
+                    md = d[2].get(mem["name"])
+                    if mem["kind"] == "attr" and mem.get("binds") is not None:
+                        continue
+                    if md is None or md[0] != mem["kind"] or (mem["kind"] == "attr" and md[1] != mem["value"]):
+                        return f"{mod}.{o['name']}.{mem['name']} is {md and md[:2]} for CPython, the model says {mem['kind']} {mem.get('value')}"
+                known = {mem["name"] for mem in o["members"]}
+                extra = [k for k, md in d[2].items() if md[0] in ("func", "class") and k not in known]
+                if extra:
+                    return f"CPython defines {mod}.{o['name']}.{extra} which the model does not know"
+        known = {o["name"] for o in m["objs"]}
+        extra = [k for k, d in got["objs"].items() if d[0] in ("func", "class") and d[3] == mod and k not in known]
+        if extra:
+            return f"CPython defines {extra} in {mod} which the model does not know"
+    return None
+
+
+def confirm_with_cpython(rec, model: dict, label: str) -> str | None:  # noqa: ANN001
+    """The model of one version against CPython's import of its files (without the deliberately broken re-export, which no
+    importable package can have). Returns a reason when the generator and CPython disagree."""
+    clean = dict(model, extra=None)
+    view = cpython_view(render(clean))
+    if isinstance(view, str):
+        plain = cpython_view(render(clean, plain=True))
+        if isinstance(plain, str):
+            rec.count("versions_cpython_cannot_import_in_either_spelling")
+            return None
+        return f"{label} version: CPython imports the plain spelling but not the one with compound statements: {view}"
+    why = model_vs_cpython(clean, view)
+    if why:
+        return f"{label} version: {why}"
+    rec.count("versions_confirmed_by_cpython_import")
+    if model.get("wraps"):
+        rec.count("versions_with_compound_statements_confirmed_by_cpython_import")
+    return None
 
 
 # -- judge ---------------------------------------------------------------------------------------
@@ -1330,14 +1677,24 @@ def module_bindings(files: dict[str, str]) -> dict[str, set[str]]:
         mod = rel[:-3].replace("/", ".")
         mod = mod[: -len(".__init__")] if mod.endswith(".__init__") else mod
         names = out.setdefault(mod, set())
-        for node in ast.parse(src).body:
-            if isinstance(node, (ast.FunctionDef, ast.AsyncFunctionDef, ast.ClassDef)):
-                names.add(node.name)
-            elif isinstance(node, (ast.Import, ast.ImportFrom)):
-                names |= {(a.asname or a.name).split(".")[0] for a in node.names if a.name != "*"}
-            elif isinstance(node, (ast.Assign, ast.AnnAssign, ast.AugAssign)):
-                targets = node.targets if isinstance(node, ast.Assign) else [node.target]
-                names |= {t.id for t in targets if isinstance(t, ast.Name)}
+
+        def walk(body: list, names: set = names) -> None:
+            for node in body:
+                if isinstance(node, (ast.FunctionDef, ast.AsyncFunctionDef, ast.ClassDef)):
+                    names.add(node.name)
+                elif isinstance(node, (ast.Import, ast.ImportFrom)):
+                    names |= {(a.asname or a.name).split(".")[0] for a in node.names if a.name != "*"}
+                elif isinstance(node, (ast.Assign, ast.AnnAssign, ast.AugAssign)):
+                    targets = node.targets if isinstance(node, ast.Assign) else [node.target]
+                    names |= {t.id for t in targets if isinstance(t, ast.Name)}
+                else:
+                    # a compound statement: what its blocks bind is bound in the module
+                    for field in ("body", "orelse", "finalbody"):
+                        walk(getattr(node, field, None) or [])
+                    for sub in list(getattr(node, "handlers", None) or []) + list(getattr(node, "cases", None) or []):
+                        walk(sub.body)
+
+        walk(ast.parse(src).body)
     return out
 
 
@@ -1441,6 +1798,26 @@ def judge(rec, case: dict, rows: list[dict], info: dict) -> tuple | None:  # noq
                     rec.count("value_edits_on_module_attribute_with_conditional_rebinding_reported")
                 for ctx in ainfo["ctxs"]:
                     rec.add_to_set("binding_contexts_in_such_pairs", ctx)
+        winfo = (case.get("wrap_info") or {}).get(canonical)
+        if winfo:
+            rec.count("incompatible_edits_on_objects_defined_in_compound_statement_demanded")
+        if hit and winfo:
+            rec.count("edits_on_objects_defined_in_compound_statement_reported")
+            for w in winfo:
+                rec.count(f"edits_on_objects_defined_in_{wrap_family(w)}_reported")
+                rec.add_to_set("compound_statement_spellings_around_reported_edits", w)
+            if len(winfo) > 1:
+                rec.count("edits_on_objects_defined_two_statements_deep_reported")
+            if canonical in (case.get("member_paths") or ()):
+                rec.count("edits_on_class_members_defined_in_compound_statement_reported")
+            if behind:
+                rec.count("edits_behind_reexport_or_inheritance_on_objects_defined_in_compound_statement_reported")
+            if kind in ("Public object was removed", "Public object points to a different kind of object", "Attribute value was changed",
+                        "Base class was removed"):
+                rec.add_to_set("breakage_kinds_reported_on_objects_defined_in_compound_statement", kind)
+        iw = case.get("import_wraps") or {}
+        if hit and any(d["path"] == w or d["path"].startswith(w + ".") for d in ds for w in iw):
+            rec.count("edits_behind_reexport_spelled_in_compound_statement_reported")
         if not hit:
             return (f"public object {canonical} ({kind}) changed on public path(s) {sorted(d['path'] for d in ds)} but no such breakage is reported",
                     rows, ds)
@@ -1537,7 +1914,21 @@ def run_case(rec, old_model: dict, script: list[str], rng: random.Random, with_c
         rec.skip("edit changes which packages the session loads")
         return
     old_files, new_files = render(old_model), render(new_model)
+    for label, mdl in (("old", old_model), ("new", new_model)):
+        why = confirm_with_cpython(rec, mdl, label)
+        if why:
+            # the generator's model and CPython disagree about what the generated package defines: nothing can be judged
+            rec.inconclusive({"old": old_files, "new": new_files}, "generator and CPython disagree - " + why)
+            return
+    wrap_old, iwrap_old = wraps_of(old_model)
+    wrap_new, _iw = wraps_of(new_model)
+    plain = None
+    if (wrap_old or iwrap_old or wrap_new) and (with_cli or rng.random() < 0.35):
+        # the same two versions with every definition at the top level: the reports must be the same
+        plain = {"old": render(old_model, plain=True), "new": render(new_model, plain=True)}
     case = {"old": old_files, "new": new_files, "expectations": expectations, "session": session, "loaded": loaded,
+            "wrap_info": wrap_old, "import_wraps": iwrap_old, "wrap_info_new": wrap_new, "plain": plain,
+            "member_paths": sorted(canon(m_, c_, o_) for m_, c_, o_ in all_objects(old_model) if c_ is not None),
             "old_surface": surface(old_model, loaded), "new_surface": surface(new_model, loaded),
             "old_full": surface(old_model), "new_full": surface(new_model), "wild_paths": wildcard_only_paths(old_model, set(loaded)),
             "composed_paths": composed, "boundary": boundary_shapes(old_model, set(loaded)), "attr_info": attribute_info(old_model),
@@ -1564,8 +1955,27 @@ def judge_case(rec, case: dict, with_cli: bool) -> None:  # noqa: ANN001, C901
                 rec.count("tree_reads_between_loading_steps", info["touched"])
                 rec.count("pairs_with_sibling_packages", int(len(info["old_tops"]) > 1))
             res = judge(rec, case, rows, info)
+            wrapped = bool(case.get("wrap_info") or case.get("import_wraps") or case.get("wrap_info_new"))
+            if wrapped:
+                rec.count("pairs_with_definitions_in_compound_statements")
             if not res and not incompat:
                 rec.count("identical_pairs_silent" if not expectations else "compatible_scripts_silent")
+                if wrapped:
+                    rec.count("silent_pairs_with_definitions_in_compound_statements")
+                    rec.count("compatible_edits_on_objects_defined_in_compound_statement_silent",
+                              sum(1 for e in expectations if e["where"] in (case.get("wrap_info_new") or {})))
+            if not res and case.get("plain"):
+                # metamorphic: the compound statements run exactly once, so the two versions spelled without them are the same
+                # two APIs - the comparison must say the same about both spellings
+                rows_plain, _info = diff_in_process(case["plain"]["old"], case["plain"]["new"], session)
+                rec.count("pairs_compared_with_their_plain_spelling")
+                seen, seen_plain = sorted({(r["kind"], r["path"]) for r in rows}), sorted({(r["kind"], r["path"]) for r in rows_plain})
+                if seen != seen_plain:
+                    res = ("the two versions spelled with their definitions inside compound statements (each runs exactly once at import time) "
+                           "and spelled with the same definitions at the top level give different reports",
+                           {"with_compound_statements": seen}, {"plain": seen_plain})
+                elif rows:
+                    rec.count("non_empty_reports_equal_in_both_spellings")
             if with_cli:
                 code, nlines, tail = cli_exit(old_files, new_files)
                 rec.count("cli_exit_codes_compared")
@@ -1577,6 +1987,10 @@ def judge_case(rec, case: dict, with_cli: bool) -> None:  # noqa: ANN001, C901
                     rec.count("cli_cases_with_empty_body_class")
                 if any(a["conditional_loser"] for a in (case.get("attr_info") or {}).values()):
                     rec.count("cli_cases_with_conditionally_rebound_attribute")
+                if any(d["canonical"] in (case.get("wrap_info") or {}) for d in demanded):
+                    rec.count("cli_cases_with_edit_on_object_defined_in_compound_statement")
+                    if any("match" in w for d in demanded for w in (case.get("wrap_info") or {}).get(d["canonical"], ())):
+                        rec.count("cli_cases_with_edit_on_object_defined_in_match_case")
                 # against the reference model: non-zero when a difference is demanded, zero when none is even allowed
                 wants = {1 if demanded else 0, 1 if allowed else 0}
                 cres = None
@@ -1605,21 +2019,22 @@ def judge_case(rec, case: dict, with_cli: bool) -> None:  # noqa: ANN001, C901
 
 def shards(tier: str, seed: int) -> list[dict]:
     n = 110 if tier == "quick" else 900
-    return [{"count": n, "cli": 6 if tier == "quick" else 18} for _ in range(16)]
+    return [{"count": n, "cli": 7 if tier == "quick" else 21} for _ in range(16)]
 
 
 def run_shard(spec: dict, rec) -> None:  # noqa: ANN001
     rng = random.Random(spec["seed"])
     for i in range(spec["count"]):
         with_cli = i < spec["cli"]
-        # of six CLI cases, two have the private sibling package linked by an exported re-export (what makes `griffe check`
+        # of seven CLI cases, two have the private sibling package linked by an exported re-export (what makes `griffe check`
         # pull it in) and edit an object pk only has from there; one has composed __all__ lists and edits an object that
         # only such a list makes public; one has containers of boundary shape (empty class bodies, ...) and edits an object
-        # that is public only through one of them
-        # ... one has attributes bound several times and changes a documented value
-        force = (["sibling", "sibling", "composed", "boundary", "attrs", None][i % 6]) if with_cli else None
+        # that is public only through one of them; one has attributes bound several times and changes a documented value;
+        # one has its definitions inside compound statements and edits one of those
+        force = (["sibling", "sibling", "composed", "boundary", "attrs", "wraps", None][i % 7]) if with_cli else None
         model = gen_model(rng, siblings=True if force == "sibling" else None, compose=True if force == "composed" else None,
-                          shapes=True if force == "boundary" else None, attrs=True if force == "attrs" else None)
+                          shapes=True if force == "boundary" else None, attrs=True if force == "attrs" else None,
+                          wraps=True if force == "wraps" else None)
         r = rng.random()
         if r < 0.12 and not force:
             script: list[str] = []
@@ -1630,9 +2045,12 @@ def run_shard(spec: dict, rec) -> None:  # noqa: ANN001
             script = script[-rng.randint(1, 4):]
             # one incompatible edit per script keeps expectations independent of each other
             inc = [k for k in script if k in INCOMPAT][:1]
+            if force == "wraps":
+                inc = [rng.choice(["remove", "change_kind", "change_value"])]
             script = [k for k in script if k in COMPAT] + (["change_value"] if force == "attrs" else inc)
         r = rng.random()
-        run_case(rec, model, script, rng, with_cli=with_cli, focus=force or ("sibling" if r < 0.2 else "composed" if r < 0.4 else "boundary" if r < 0.6 else "attrs" if r < 0.8 else None))
+        focus = force or ("sibling" if r < 0.18 else "composed" if r < 0.36 else "boundary" if r < 0.54 else "attrs" if r < 0.72 else "wraps" if r < 0.88 else None)
+        run_case(rec, model, script, rng, with_cli=with_cli, focus=focus)
 
 
 def legacy_case(inp: dict) -> dict:
